@@ -35,6 +35,9 @@ class Ev:
         S = z3.RealSort() if real else z3.IntSort()
         self.S = S
         self.arr = z3.Array("in_a", S, S) if not real else z3.Function("a_r", S, S)
+        I = z3.IntSort()
+        self.carr = (z3.Array("in_c%w", I, z3.ArraySort(I, z3.ArraySort(I, I))) if not real else
+                     z3.Function("cw_r", S, S, S, S))
 
     def var(self, n):
         return z3.Real("r_" + n) if self.real else z3.Int("in_" + n)
@@ -76,6 +79,9 @@ class Ev:
         if k == "arr":
             x = self.ev(e[2])
             return self.arr(x) if self.real else z3.Select(self.arr, x)
+        if k == "sarr":
+            x, y, z = self.ev(e[1]), self.ev(e[2]), self.ev(e[3])
+            return self.carr(x, y, z) if self.real else z3.Select(z3.Select(z3.Select(self.carr, x), y), z)
         raise ValueError(k)
 
 
@@ -106,6 +112,8 @@ def pyeval(e, env, arr):
         return pyeval(e[1], env, arr) ** e[2]
     if k == "arr":
         return arr(pyeval(e[2], env, arr))
+    if k == "sarr":
+        return arr.c3(pyeval(e[1], env, arr), pyeval(e[2], env, arr), pyeval(e[3], env, arr))
     raise ValueError(k)
 
 
@@ -141,12 +149,18 @@ def model_env(m, extra_vars=()):
 
     def arr(x):
         return m.eval(z3.Select(A, z3.IntVal(x)), model_completion=True).as_long()
+    I = z3.IntSort()
+    C = z3.Array("in_c%w", I, z3.ArraySort(I, z3.ArraySort(I, I)))
+    arr.c3 = lambda x, y, z: m.eval(z3.Select(z3.Select(z3.Select(C, z3.IntVal(x)), z3.IntVal(y)), z3.IntVal(z)),
+                                    model_completion=True).as_long()
+    arr.m = m
     return env, arr
 
 
 def src_for(pairs):
-    lines = ["subroutine s(i, j, n, m, a, " + ", ".join(f"p{k}, q{k}" for k in range(len(pairs))) + ")",
-             "  integer :: i, j, n, m", "  integer, dimension(:) :: a"]
+    lines = ["subroutine s(i, j, n, m, a, c, " + ", ".join(f"p{k}, q{k}" for k in range(len(pairs))) + ")",
+             "  type :: ct", "    integer :: w(8)", "  end type ct",
+             "  integer :: i, j, n, m", "  integer, dimension(:) :: a", "  type(ct) :: c(8,8)"]
     for k in range(len(pairs)):
         lines.append(f"  integer :: p{k}, q{k}")
     for k, p in enumerate(pairs):
@@ -159,7 +173,8 @@ def src_for(pairs):
 def fsym_term(text):
     """z3 term of an integer expression text over i,j,n,m,a (via fsym)."""
     from vlib.fsym.interp import Interp
-    src = ("subroutine s(i, j, n, m, a, r)\n  integer :: i, j, n, m, r\n  integer, dimension(:) :: a\n"
+    src = ("subroutine s(i, j, n, m, a, c, r)\n  type :: ct\n    integer :: w(8)\n  end type ct\n"
+           "  integer :: i, j, n, m, r\n  integer, dimension(:) :: a\n  type(ct) :: c(8,8)\n"
            f"  r = {text}\nend subroutine s\n")
     it = Interp(src)
     it.run("s")
@@ -351,12 +366,15 @@ def eval_text(text, env, arr):
         reps = []
         for sl in sels:
             ix = z3.simplify(sl.arg(1))
-            if z3.is_int_value(ix):
+            if z3.is_int_value(ix) and sl.arg(0).eq(A):
                 reps.append((sl, z3.IntVal(arr(ix.as_long()))))
         if not reps:
             break
         t = z3.substitute(t, *reps)
     t = z3.simplify(t)
+    if not z3.is_int_value(t) and hasattr(arr, "m") and "in_c%w" in str(t):
+        # reads of the structure component: the witness' own array (indices are concrete by now)
+        t = z3.simplify(arr.m.eval(t, model_completion=True))
     return t.as_long() if z3.is_int_value(t) else None
 
 
